@@ -122,7 +122,7 @@ func parseN(parts []string) (uint64, int, bool) {
 // RoundTrip serves one request.
 func (l *TileLog) RoundTrip(q *http.Request) (*http.Response, error) {
 	mk := func(code int, b []byte) (*http.Response, error) {
-		return &http.Response{StatusCode: code, Status: fmt.Sprintf("%d stub", code), Body: io.NopCloser(bytes.NewReader(b)), Header: http.Header{}, Request: q}, nil
+		return &http.Response{StatusCode: code, Status: fmt.Sprintf("%d stub", code), Body: io.NopCloser(bytes.NewReader(b)), Header: http.Header{}, ContentLength: int64(len(b)), Request: q}, nil
 	}
 	l.mu.Lock()
 	defer l.mu.Unlock()
